@@ -257,7 +257,7 @@ class Tensor(rigid.Box):
 
     def map(self, func):
         """ Apply a function elementwise. """
-        return Tensor(
+        return type(self)(
             self.dom, self.cod, list(map(func, self.array.flatten())))
 
     @staticmethod
